@@ -310,7 +310,31 @@ class Group:
                 except Exception:
                     pass
 
+    def server_gc_elsewhere(self):
+        """garbage collection inside the server, requested over a connection of its own (a short-lived thread), so that
+        the driver thread's connection - and whatever its server-side handler thread still holds - is left alone"""
+        import threading
+        t = threading.Thread(target=self.gch.collect)
+        t.start()
+        t.join(60)
+
     def oracle(self, kind, s, xid, shm, names, history):
+        if total(s) == 0:
+            # nothing refers to X any more: it must be gone NOW, not when this client happens to send its next request
+            for a in self.agents.values():
+                if getattr(a, 'proc', None) is None or a.proc.is_alive():
+                    try:
+                        a.do('gc')
+                    except Exception:
+                        pass
+            self.server_gc_elsewhere()
+            dbg = self.debug()
+            if xid in dbg:
+                return ('destruction-delayed-until-next-request', f'{kind}: after {history} no proxy, pickle or container '
+                        f'refers to X, yet the server still hosts it with refcount {dbg[xid]} (before the driver thread '
+                        'sends its next request)')
+            if shm is not None and os.path.exists(shm):
+                return ('shared-memory-delayed-until-next-request', f'{shm} still exists after {history}')
         self.collect_all()
         dbg = self.debug()
         want = total(s)
